@@ -76,8 +76,10 @@ CLAIMS['C11'] = dict(
          'objects is read back by the current computation. Far-field side, on three slices of the real-ground branch of '
          'compute_far_field run on 1x1 arrays of symbolic values (shape-bounded): the reflection-point distance, the medium lookup '
          '(1..3 media; lemmas: a further medium beyond the reflection point / splitting a medium select the same constants), the radial '
-         'screen and the Fresnel coefficients with the perfect-conductor limit v = 1, h = 0. The rate of convergence and the rest of the '
-         'real-ground summation are only exercised by the bounded native sweep.',
+         'screen and the Fresnel coefficients with the perfect-conductor limit v = 1, h = 0; and the complete real-ground computation of '
+         'E(theta), E(phi) (both image passes, Fresnel coefficients, summation) with surface impedance 0 equals the ideal-ground '
+         'computation on the same symbolic arrays (1 direction x 2 pulses, either end grounded): the limit point of the convergence '
+         'clause. Continuity in the impedance and the rate of convergence are only exercised by the bounded native sweep.',
     note='clause-wise claim; call graph by method name and arity (over-approximation); complex sqrt / log uninterpreted; floats as reals',
     design_ref='DESIGN.md §5 C11')
 CLAIMS['C10'] = dict(
